@@ -181,12 +181,15 @@ impl ConnectionState {
                 *self = ConnectionState::ServerClosing(close);
 
                 for (_, mut slot) in inner.chan_slots.drain() {
-                    send(&slot.tx, Err(make_err()))?;
-                    #[cfg(amiquip_verif)]
-                    super::verif_probe::sched_point(2);
+                    // Consumers first, the channel's blocked caller last: that caller may
+                    // be a Consumer being dropped, which gives up its receiver as soon as it
+                    // is released (see the CancelOk arm).
                     for (_, tx) in slot.consumers.drain() {
                         send(&tx, ConsumerMessage::ServerClosedConnection(make_err()))?;
                     }
+                    #[cfg(amiquip_verif)]
+                    super::verif_probe::sched_point(2);
+                    send(&slot.tx, Err(make_err()))?;
                 }
             }
             // Server ack for client-initiated connection close.
@@ -201,12 +204,12 @@ impl ConnectionState {
                 *self = ConnectionState::ClientClosed;
 
                 for (_, mut slot) in inner.chan_slots.drain() {
-                    send(&slot.tx, Err(Error::ClientClosedConnection))?;
-                    #[cfg(amiquip_verif)]
-                    super::verif_probe::sched_point(2);
                     for (_, tx) in slot.consumers.drain() {
                         send(&tx, ConsumerMessage::ClientClosedConnection)?;
                     }
+                    #[cfg(amiquip_verif)]
+                    super::verif_probe::sched_point(2);
+                    send(&slot.tx, Err(Error::ClientClosedConnection))?;
                 }
             }
             // Server is blocking publishes due to an alarm on its side (e.g., low mem)
@@ -240,12 +243,12 @@ impl ConnectionState {
                     code: close.reply_code,
                     message: close.reply_text.clone(),
                 };
-                send(&slot.tx, Err(make_err()))?;
-                #[cfg(amiquip_verif)]
-                super::verif_probe::sched_point(2);
                 for (_, tx) in slot.consumers.drain() {
                     send(&tx, ConsumerMessage::ServerClosedChannel(make_err()))?;
                 }
+                #[cfg(amiquip_verif)]
+                super::verif_probe::sched_point(2);
+                send(&slot.tx, Err(make_err()))?;
                 inner.push_method(n, AmqpChannel::CloseOk(ChannelCloseOk {}));
             }
             // Server ack for client-initiated channel close.
